@@ -10,6 +10,12 @@ TRUST = ("Trusted base: the API-server / kubelet / cache models of internal/worl
 
 # id -> (cmd, category, technique, text, design_ref, note)
 CHECKS = {
+ "C02": ("c02", "model_checking", "deviation-bounded explicit-state search of the real reconciler + bottom-SCC (fair-convergence) analysis",
+         "From thousands of mostly non-initial seed states, all interleavings of reconcile / kubelet progress are explored (deduplicated by canonical state), plus every single deviation (user edit, pod regression, failed API write) from every state; every bottom SCC of the progress graph must be one quiescent goal state, which is exactly convergence under the property's fairness premise.", "4/C02", TRUST),
+ "C16": ("c16", "model_checking", "exhaustive event-shape enumeration on the real handlers and worker against a reference function",
+         "Every add/update/delete/tombstone event over all owner x label x terminating shapes (all old x new pairs) is fed to the handlers the real constructor registered; enqueued keys must lie between the required and the allowed set of a reference function; every success/failure sequence of <=4 worker steps is checked for requeue discipline.", "4/C16", TRUST),
+ "C17": ("c17", "fault_enumeration", "exhaustive fault/crash-point enumeration of the real upgrade helper to depth 2-3 with recovery equivalence",
+         "Every API call position of helper.Upgrade x every applicable fault kind (error, lost response, conflict, concurrent delete, already-exists, crash before/after), nested to depth 2 (3 thorough) with re-runs, on all selector shapes x revision populations x pre-existing Advanced object variants; safety at the moment of deletion, no pod/claim writes, eventual success and final-state equality with the uninterrupted run.", "4/C17", TRUST),
  "C10": ("c10", "model_checking", "exhaustive snapshot enumeration over ownership grids with call-log monitors and a differential oracle",
          "Pods and revisions with every combination of owner, label match, name shape and terminating flag, a second set with the same selector, and a cached set that is stale w.r.t. the API (deleting, other UID, absent) are each reconciled once by the real controller; every write is judged for ownership, adoption needs a prior uncached confirmation, and the writes must equal those of the same snapshot without foreign-owned objects.", "4/C10", TRUST),
  "C11": ("c11", "model_checking", "exhaustive snapshot enumeration with the pause/deletion flag raised",
